@@ -8,25 +8,27 @@ From Coq Require Import ZArith List String Reals PrimFloat.
 From PyLib Require Import PyVal PyBuiltins B64 B64Facts Ideal.
 From Spec Require Import CalSpec CivilOfJdn.
 From Gen Require Import M_base M_Angle M_Epoch.
-From Proofs.C02 Require Import C02_defs C02_sym C02_symf C02_main.
+From Proofs.C02 Require Import C02_defs C02_sym C02_symf C02_main C02_hms.
 Import ListNotations.
 Open Scope Z_scope.
 
-(* (a) For EVERY day number 0 <= z < 5 400 000 (years -4712 .. 10072): Epoch(z - 0.5).get_date()
+(* (a) INTEGER DAY NUMBERS AT 0h ONLY (not "any instant"): for EVERY day number
+   0 <= z < 5 400 000 (years -4712 .. 10072): Epoch(z - 0.5).get_date()
    is exactly the valid civil date whose independent day count is z (such a date exists and is
    unique for every z >= 0: CivilOfJdn.jdn_surj, CalSpec.jdn_inj). *)
 Theorem C02_date_of_day : forall z y m d, 0 <= z < 5400000 -> valid y m d = true -> jdn y m d = z ->
   get_date (ep (jde_of z)) = VTuple [VInt y; VInt m; VFloat (b64_of_Z d)].
 Proof. exact date_of_day. Qed.
 
-(* ... hence the date tuple strictly increases with the day number *)
+(* ... hence the date tuple strictly increases from one day (at 0h) to a later day (at 0h);
+   nothing is proved about two instants inside one day *)
 Theorem C02_date_monotone : forall z z', 0 <= z -> z < z' -> z' < 5400000 ->
   exists y m d y' m' d',
     get_date (ep (jde_of z)) = date_tuple y m d /\ get_date (ep (jde_of z')) = date_tuple y' m' d' /\
     date_lt y m d y' m' d'.
 Proof. exact date_monotone. Qed.
 
-(* (a) JDE -> (y, m, d, h, mi, s) -> JDE on the grid {first day of each month, day before} x
+(* (a) A GRID, not "any instant": JDE -> (y, m, d, h, mi, s) -> JDE on the grid {first day of each month, day before} x
    {16 day fractions from 0 to 1 - 1e-9} of 153 + 22 years, and every day around the reform:
    the date is the civil date of the day, 0<=h<=23, 0<=mi<=59, 0<=s<60, the Epoch rebuilt from
    the six fields is within 1e-8 day of the JDE and is what Epoch(JDE) returns (see full_ok) *)
@@ -35,6 +37,27 @@ Theorem C02_full_date_grid :
   (forall y z fr, In y special_years -> In z (zs_of_year y) -> 0 <= z -> In fr fracs -> full_ok z fr) /\
   (forall z fr, 2299150 <= z < 2299172 -> In fr fracs -> full_ok z fr).
 Proof. exact (conj full_grid (conj full_special full_reform)). Qed.
+
+(* (a) field ranges for EVERY float, not a grid: whenever get_date returns (int, int, finite day
+   value in [0, 1000]) -- the shape it really returns, see the witness below and full_ok on the
+   grid -- get_full_date returns the same year and month, day = int(day value), and
+   hour in 0..23, minute in 0..59, 0 <= second < 60 (never 60.0, never hour 24).
+   Float rounding is handled with Flocq (B64Verified): fl(r*24) < 24, fl(r*60) < 60, fl(60*q) < 60
+   for every float r, q in [0, 1), and p - int(p) is exact.  The premise about get_date is NOT
+   discharged for arbitrary JDE (only at 0h of every day by C02_date_of_day and on the grid). *)
+Theorem C02_fields_every_float : forall j y m d,
+  Epoch_get_date B0 (ep j) (VDict []) = VTuple [VInt y; VInt m; VFloat d] ->
+  PrimFloat.is_finite d = true -> (0 <=? d)%float = true -> (d <=? 1000)%float = true ->
+  exists h mi s,
+    Epoch_get_full_date B0 (ep j) (VDict [])
+      = VTuple [VInt y; VInt m; VInt (b64_trunc d); VInt h; VInt mi; VFloat s] /\
+    0 <= h <= 23 /\ 0 <= mi <= 59 /\ (0 <=? s)%float = true /\ (s <? 60)%float = true.
+Proof. exact full_date_fields_b. Qed.
+(* non-vacuity: the premises are attained by the model (2000-01-01 18h) *)
+Theorem C02_fields_premise_attained :
+  Epoch_get_date B0 (ep 2451545.25%float) (VDict []) = VTuple [VInt 2000; VInt 1; VFloat 1.75%float] /\
+  PrimFloat.is_finite 1.75%float = true /\ (0 <=? 1.75)%float = true /\ (1.75 <=? 1000)%float = true.
+Proof. exact full_date_fields_witness. Qed.
 
 (* (b) input forms, ALL argument values, every FloatOps instance: a tuple or list of 3..6 items,
    a date, a copy of another Epoch give the same result as the separate numbers / the JDE *)
@@ -74,7 +97,11 @@ Theorem C02_forms_grid :
   (forall d t, (d = 4 \/ d = 15) -> In t times -> forms_ok 1582 10 d t).
 Proof. exact (conj forms_grid (conj forms_special forms_reform)). Qed.
 
-(* (c)(d) operators, every FloatOps instance (binary64: all floats; ideal: all reals):
+(* (c)(d) operators, every FloatOps instance (binary64: all floats; ideal: all reals).
+   NOTE what this does and does not say: e +/- x is only REDUCED to the constructor call
+   Epoch(jde +/- x) (mkEg fo [VFloat ...]); what that constructor call returns (and hence
+   (e + x) - e = x) is characterised only on the binary64 grids of C02_full_date_grid /
+   C02_arith_grid, nowhere else.
    comparisons are the comparisons of the JDEs, == is |difference| < TOL, != its negation;
    Epoch - Epoch is the difference; Epoch +/- x is Epoch(jde +/- x); x + Epoch = Epoch + x;
    the in-place forms += / -= return what + / - return *)
@@ -92,6 +119,7 @@ Theorem C02_operators : forall (F : Type) (fo : FloatOps F) (a b : F),
   Epoch___add__ fo (epg a) (VFloat b) = mkEg fo [VFloat (f_add fo a b)] /\
   Epoch___sub__ fo (epg a) (VFloat b) = mkEg fo [VFloat (f_sub fo a b)] /\
   Epoch___radd__ fo (epg a) (VFloat b) = Epoch___add__ fo (epg a) (VFloat b) /\
+  (forall n, Epoch___radd__ fo (epg a) (VInt n) = Epoch___add__ fo (epg a) (VInt n)) /\
   Epoch___iadd__ fo (epg a) (VFloat b) = Epoch___add__ fo (epg a) (VFloat b) /\
   Epoch___isub__ fo (epg a) (VFloat b) = Epoch___sub__ fo (epg a) (VFloat b) /\
   (forall n, Epoch___iadd__ fo (epg a) (VInt n) = Epoch___add__ fo (epg a) (VInt n)) /\
@@ -107,7 +135,7 @@ Proof.
   intros. repeat apply conj.
   - apply lt_ee. - apply gt_ee. - apply le_ee. - apply ge_ee. - apply eq_ee. - apply ne_ee.
   - apply lt_ef. - apply gt_ef. - apply eq_ef. - apply sub_ee. - apply add_ef. - apply sub_ef.
-  - apply radd_ef. - apply iadd_ef. - apply isub_ef. - intro; apply iadd_ei. - intro; apply isub_ei.
+  - apply radd_ef. - intro; apply radd_ei. - apply iadd_ef. - apply isub_ef. - intro; apply iadd_ei. - intro; apply isub_ei.
   - intro; apply add_ei. - intro; apply sub_ei.
   - intros v Hv. destruct (cmp_type_error fo a v Hv) as (H1 & _ & _ & _ & H5 & _).
     destruct (add_type_error fo a v Hv) as (H7 & _ & _ & H8 & H9). auto.
@@ -133,7 +161,9 @@ Theorem C02_order_ideal : forall a b : R,
   (Epoch___ne__ Rops (epg a) (epg b) = VBool true <-> ~ (Rabs (a - b) < 1 / 10000000000)%R).
 Proof. exact ideal_order. Qed.
 
-(* (c) ideal instance, all reals *)
+(* (c) ideal instance, all reals: the instance of C02_operators at Rops.  It does NOT give
+   (e + x) - e = x for reals: that would need Epoch(j) = j in real arithmetic (the calendar
+   algorithm for all reals), which is unproved *)
 Theorem C02_arith_ideal : forall j j' x : R,
   Epoch___sub__ Rops (epg j) (epg j') = VFloat (j - j')%R /\
   Epoch___add__ Rops (epg j) (VFloat x) = mkEg Rops [VFloat (j + x)%R] /\
@@ -144,6 +174,8 @@ Proof. exact ideal_arith. Qed.
 Redirect "C02_date_of_day.assumptions" Print Assumptions C02_date_of_day.
 Redirect "C02_date_monotone.assumptions" Print Assumptions C02_date_monotone.
 Redirect "C02_full_date_grid.assumptions" Print Assumptions C02_full_date_grid.
+Redirect "C02_fields_every_float.assumptions" Print Assumptions C02_fields_every_float.
+Redirect "C02_fields_premise_attained.assumptions" Print Assumptions C02_fields_premise_attained.
 Redirect "C02_input_forms_all.assumptions" Print Assumptions C02_input_forms_all.
 Redirect "C02_datetime.assumptions" Print Assumptions C02_datetime.
 Redirect "C02_forms_grid.assumptions" Print Assumptions C02_forms_grid.
